@@ -2,6 +2,7 @@
 From RJ Require Import Base.Prelude Base.OrderedPlan Model.Settings Model.Core Model.Fs Model.Paths Model.Sync Model.SyncTop
   Spec.PlanSpec Spec.Mirror Proofs.ExecProofs Proofs.MirrorProofs Proofs.InstanceProofs Proofs.CrashProofs Proofs.CrashMain Proofs.WfProofs Proofs.RepairMain Proofs.KillEvents Proofs.ChunkTie.
 From RJ Require Import Gen.Facts_chunks.
+From RJ Require Model.Walker Proofs.WalkBridge Proofs.WalkedSync.
 
 (* The invariant (Proofs/CrashProofs.v): on the destination a file that carries a SET time - as opposed
    to the time of its last write - is either the very file that was there before the run, or holds exactly
@@ -143,6 +144,39 @@ Example C08_example :
           (sync_kill_states now_far normalize_unix chunk_real c08_cfg c08_S (world c08_D AncOk [0%N]) [] [] c08_ls c08_ld (mkFaults [] [] 3 None)) = true.
 Proof. vm_compute. repeat split; reflexivity. Qed.
 
+(* END TO END with the directory walk (C17, Proofs/WalkBridge.v, Proofs/WalkedSync.v), for ANY clock, filter verdict,
+   link-text normaliser and chunker: run a sync whose two listings are whatever arbitrary executions of the
+   N-worker walk deliver, under ANY fault plan; let it end - Ok or failed - or kill the doer in any state a kill
+   can leave behind.  That state is a well-formed tree satisfying Good in which nothing went through a link ... *)
+Theorem C08_walked_crash_states : forall now_z incl normalize chunker,
+  (forall d, chunker d <> [] /\ concat (chunker d) = d) ->
+  forall cfg S D ans bits ls ld ft s,
+  wf_fs S -> wf_fs (d_fs D) -> unique_keys (d_fs D) -> d_open D = None -> no_through (d_events D) ->
+  WalkedSync.walked now_z incl normalize S ls -> WalkedSync.walked now_z incl normalize (d_fs D) ld ->
+  (In s (sync_kill_states now_z normalize chunker cfg S D ans bits ls ld ft) \/
+   s = r_dest (sync_one now_z normalize chunker cfg S D ans bits ls ld ft)) ->
+  Good S (d_fs D) s /\ wf_fs (d_fs s) /\ unique_keys (d_fs s) /\ no_through (d_events s).
+Proof. exact WalkedSync.walked_crash_states. Qed.
+(* ... and a second sync started by a fresh doer on it - again with walked listings, any settings, answers and
+   faults - mirrors the source whenever it returns Ok without skips; every source file then has its bytes and
+   time on the destination (up to C01's exemption of a file that carried the source's time before the first run). *)
+Theorem C08_walked_rerun_repairs : forall now_z incl normalize chunker,
+  (forall d, chunker d <> [] /\ concat (chunker d) = d) ->
+  forall dest_fl cfg S D ans bits ls ld ft s cfg2 ans2 bits2 ls2 ld2 ft2,
+  wf_fs S -> src_times_set S -> links_roundtrip normalize dest_fl S ->
+  wf_fs (d_fs D) -> unique_keys (d_fs D) -> d_open D = None -> no_through (d_events D) ->
+  WalkedSync.walked now_z incl normalize S ls -> WalkedSync.walked now_z incl normalize (d_fs D) ld ->
+  (In s (sync_kill_states now_z normalize chunker cfg S D ans bits ls ld ft) \/
+   s = r_dest (sync_one now_z normalize chunker cfg S D ans bits ls ld ft)) ->
+  WalkedSync.walked now_z incl normalize S ls2 -> WalkedSync.walked now_z incl normalize (d_fs s) ld2 ->
+  let r2 := sync_one now_z normalize chunker cfg2 S (reboot s) ans2 bits2 ls2 ld2 ft2 in
+  r_ok r2 = true -> r_skipped r2 = [] -> r_root_skipped r2 = false -> cf_dry cfg2 = false -> cf_fl cfg2 = dest_fl ->
+  mirror now_z incl normalize (cf_diff cfg2) dest_fl S (d_fs s) (d_fs (r_dest r2)) /\
+  forall p t b, takes_part incl S p -> fget S p = Some (NFile (TSet t) b) -> (forall k, now_z k <> t) ->
+    fget (d_fs (r_dest r2)) p = Some (NFile (TSet t) b) \/
+    exists b0, fget (d_fs D) p = Some (NFile (TSet t) b0) /\ fget (d_fs (r_dest r2)) p = Some (NFile (TSet t) b0).
+Proof. exact WalkedSync.walked_rerun_repairs. Qed.
+
 Print Assumptions C08_kill_states_safe.
 Print Assumptions C08_kill_states_are_of_this_run.
 Print Assumptions C08_chunk_step.
@@ -153,3 +187,5 @@ Print Assumptions C08_states_well_formed.
 Print Assumptions C08_rerun_executable.
 Print Assumptions C08_executable_unconditional.
 Print Assumptions C08_chunk_ladder_matches_code.
+Print Assumptions C08_walked_crash_states.
+Print Assumptions C08_walked_rerun_repairs.
